@@ -13,6 +13,7 @@ import CallbagModel.Inv.PlugSafe
 import CallbagModel.Inv.Readable
 import CallbagModel.Inv.Relay
 import CallbagModel.Inv.Share
+import CallbagModel.Inv.ShareCS
 import CallbagModel.Inv.ShareWeak
 import CallbagModel.Inv.Take
 /-!
